@@ -1,4 +1,4 @@
-//@@ unit props=C14,C06 rlimit=200
+//@@ unit props=C14,C06 rlimit=1500
 // Unit xlsbfml: the [MS-XLSB] token renderer `parse_formula` of src/xlsb/mod.rs (verbatim text) under Verus.
 #![feature(allocator_api)]
 #![allow(unused_imports, dead_code, unused_variables, unused_mut, unused_assignments, unexpected_cfgs, deprecated)]
@@ -570,6 +570,9 @@ pub open spec fn xlsb_attrsum_text(scope: bool, got: Seq<char>, want: Seq<char>)
 pub open spec fn xlsb_binary_operator_text(scope: bool, got: Seq<char>, want: Seq<char>) -> bool { scope ==> got =~= want }
 pub open spec fn xlsb_paren_text(scope: bool, got: Seq<char>, want: Seq<char>) -> bool { scope ==> got =~= want }
 pub open spec fn xlsb_ptgarea3d_text(scope: bool, got: Seq<char>, want: Seq<char>) -> bool { scope ==> got =~= want }
+pub open spec fn xlsb_ptgarea_text_absolute(scope: bool, got: Seq<char>, want: Seq<char>) -> bool { scope ==> got =~= want }
+pub open spec fn xlsb_ptgref3d_text_absolute(scope: bool, got: Seq<char>, want: Seq<char>) -> bool { scope ==> got =~= want }
+pub open spec fn xlsb_ptgarea3d_text_absolute(scope: bool, got: Seq<char>, want: Seq<char>) -> bool { scope ==> got =~= want }
 pub open spec fn xlsb_ptgarea_text(scope: bool, got: Seq<char>, want: Seq<char>) -> bool { scope ==> got =~= want }
 pub open spec fn xlsb_ptgareaerr3d_text(scope: bool, got: Seq<char>, want: Seq<char>) -> bool { scope ==> got =~= want }
 pub open spec fn xlsb_ptgareaerr_text(scope: bool, got: Seq<char>, want: Seq<char>) -> bool { scope ==> got =~= want }
@@ -610,7 +613,7 @@ proof fn lemma_dq_plain(t: Seq<char>)
 proof fn lemma_xlsb_ptgref_text(d: Seq<u8>, row: int, col: int, got: Seq<char>)
     requires
         d.len() >= 6, row == le32(d) + 1, col == d[4] as int + 256 * ((d[5] & 0x3F) as int),
-        got == dollar(d[5] & 0x80 != 0x80) + col_name(col) + dollar(d[5] & 0x40 != 0x40) + dec(row as nat),
+        got == dollar(d[5] & 0x40 != 0x40) + col_name(col) + dollar(d[5] & 0x80 != 0x80) + dec(row as nat),
     ensures
         xlsb_ptgref_text(xb_row_ok(le32(d)), got, xb_cell(d)),
 {
@@ -623,6 +626,9 @@ proof fn lemma_xlsb_ptgarea_text(d: Seq<u8>, got: Seq<char>)
         got == seq!['$'] + col_name(le16(d.subrange(8, 10))) + seq!['$'] + dec((le32(d.subrange(0, 4)) + 1) as nat)
             + seq![':', '$'] + col_name(le16(d.subrange(10, 12))) + seq!['$'] + dec((le32(d.subrange(4, 8)) + 1) as nat),
     ensures
+        // proved: both corners absolute
+        xlsb_ptgarea_text_absolute(xb_row_ok(le32(d)) && xb_row_ok(le32(d.skip(4))) && le16(d.skip(8)) < 16384 && le16(d.skip(10)) < 16384, got, xb_area(d)),
+        // FAILS (registered): the relative flags are ignored and not masked out of the column
         xlsb_ptgarea_text(xb_row_ok(le32(d)) && xb_row_ok(le32(d.skip(4))), got, xb_area(d)),
 {
 }
@@ -632,6 +638,9 @@ proof fn lemma_xlsb_ptgref3d_text(sh: Seq<char>, d: Seq<u8>, got: Seq<char>)
         d.len() >= 8,
         got == sh + seq!['!', '$'] + col_name(le16(d.subrange(6, 8))) + seq!['$'] + dec((le32(d.subrange(2, 6)) + 1) as nat),
     ensures
+        // proved: absolute reference
+        xlsb_ptgref3d_text_absolute(xb_row_ok(le32(d.skip(2))) && le16(d.skip(6)) < 16384, got, sh + seq!['!'] + xb_cell(d.skip(2))),
+        // FAILS (registered): the relative flags are ignored and not masked out of the column
         xlsb_ptgref3d_text(xb_row_ok(le32(d.skip(2))), got, sh + seq!['!'] + xb_cell(d.skip(2))),
 {
 }
@@ -642,6 +651,9 @@ proof fn lemma_xlsb_ptgarea3d_text(sh: Seq<char>, d: Seq<u8>, got: Seq<char>)
         got == sh + seq!['!', '$'] + col_name(le16(d.subrange(10, 12))) + seq!['$'] + dec((le32(d.subrange(2, 6)) + 1) as nat)
             + seq![':', '$'] + col_name(le16(d.subrange(12, 14))) + seq!['$'] + dec((le32(d.subrange(6, 10)) + 1) as nat),
     ensures
+        // proved: both corners absolute
+        xlsb_ptgarea3d_text_absolute(xb_row_ok(le32(d.skip(2))) && xb_row_ok(le32(d.skip(6))) && le16(d.skip(10)) < 16384 && le16(d.skip(12)) < 16384, got, sh + seq!['!'] + xb_area(d.skip(2))),
+        // FAILS (registered): the relative flags are ignored and not masked out of the column
         xlsb_ptgarea3d_text(xb_row_ok(le32(d.skip(2))) && xb_row_ok(le32(d.skip(6))), got, sh + seq!['!'] + xb_area(d.skip(2))),
 {
 }
@@ -649,7 +661,9 @@ proof fn lemma_xlsb_ptgarea3d_text(sh: Seq<char>, d: Seq<u8>, got: Seq<char>)
 proof fn lemma_xlsb_ptgstr_text(chars: Seq<char>, got: Seq<char>, f: Seq<char>)
     requires got == f + seq!['"'] + chars + seq!['"'],
     ensures
+        // proved: no double quote inside
         xlsb_ptgstr_text_without_quote(!has_quote(chars), got, f + quoted(chars)),
+        // FAILS (registered): an embedded double quote is not doubled
         xlsb_ptgstr_text(true, got, f + quoted(chars)),
 {
     lemma_dq_plain(chars);
@@ -799,7 +813,7 @@ verus! {
 //@@ r6 2
 //@@ loop 2
                         invariant
-                            0 <= wi <= args@.len() - 1,
+                            0 <= wi <= args@.len() - 1, 0 <= k0,
                             win_rem(__it2) =~= all_windows(args@, 2).skip(wi),
                             forall|i: int| 0 <= i < args@.len() ==> is_bnd(fa, #[trigger] args@[i] as int),
                             forall|i: int, j: int| 0 <= i <= j < args@.len() ==> args@[i] <= args@[j],
@@ -1042,7 +1056,7 @@ verus! {
                     assert(stack@ =~= st_in.push(blen(f_in) as usize));
                     lemma_S_push(f_in, st_in, t);
                     assert(rgce@ =~= rg_in.skip(7));
-                    let got = dollar(d_in[5] & 0x80 != 0x80) + col_name(col as int) + dollar(d_in[5] & 0x40 != 0x40) + dec(row as nat);
+                    let got = dollar(d_in[5] & 0x40 != 0x40) + col_name(col as int) + dollar(d_in[5] & 0x80 != 0x80) + dec(row as nat);
                     assert(formula@ =~= f_in + got);
                     lemma_xlsb_ptgref_text(d_in, row as int, col as int, got);
                 }
